@@ -46,7 +46,7 @@ def strategy(tier):
                 a["end_usage"], a["cq"] = 3, draw(st.sampled_from([20, 35, 50]))
             src = dict(src="aom", aom=a)
         else:
-            c, n, tp = draw(gens.cfg(max_dim=320, min_dim=130, frames=(2, 10), allow_twopass=False, slow_p=0, lps=(4,), recon=0, presets=(8, 8, 7, 6, 5)))
+            c, n, tp = draw(gens.cfg(max_dim=320, min_dim=130, frames=(2, 10), allow_twopass=False, slow_p=0, lps=(4,), recon=0, presets=(8, 8, 7, 6, 5), exclude=("AQ1", "TPL0", "MINQ0", "2PASS")))
             c["tile_rows"] = draw(st.integers(0, 2))
             c["tile_columns"] = draw(st.integers(0, 2))
             if draw(st.integers(0, 3)) == 0:
